@@ -27,13 +27,14 @@ type netConn = net.Conn
 
 type c04Cell struct {
 	Pin      string `json:"pin"`
-	IDKind   string `json:"id"`                // controller identifier shape
-	KeySeed  string `json:"key"`               // Ed25519 identity seed
-	EphSeed  string `json:"eph"`               // X25519 seed label ("highbit" = public key with the top bit set)
-	SRP      string `json:"srp"`               // "" | "A-leading-zero" | "S-leading-zero" | "B-leading-zero"
-	Restart  bool   `json:"restart"`           // verify against a restarted transport on the same storage
-	NewPin   string `json:"new_pin,omitempty"` // the restarted transport is configured with this setup code; a second controller pairs with it
-	ReqSize  int    `json:"req"`               // total size of the encrypted PUT request (0 = small)
+	IDKind   string `json:"id"`                  // controller identifier shape
+	KeySeed  string `json:"key"`                 // Ed25519 identity seed
+	EphSeed  string `json:"eph"`                 // X25519 seed label ("highbit" = public key with the top bit set)
+	SRP      string `json:"srp"`                 // "" | "A-leading-zero" | "S-leading-zero" | "B-leading-zero"
+	Restart  bool   `json:"restart"`             // verify against a restarted transport on the same storage
+	ReVerify bool   `json:"re_verify,omitempty"` // after the encrypted requests the controller runs pair-verify again on the same connection
+	NewPin   string `json:"new_pin,omitempty"`   // the restarted transport is configured with this setup code; a second controller pairs with it
+	ReqSize  int    `json:"req"`                 // total size of the encrypted PUT request (0 = small)
 	WrongPin bool   `json:"wrong_pin"`
 	SameConn bool   `json:"same_conn"`         // pair-verify on the connection that did pair-setup
 	Retry    bool   `json:"retry"`             // first a complete attempt with a wrong code on the same connection, then the right code
@@ -153,7 +154,7 @@ var _ io.Reader = &detStream{}
 
 func c04Exec(c *fw.Ctx, cell c04Cell) {
 	c.Eval(1)
-	name := fmt.Sprintf("before=%s peer=%s ", cell.Before, cell.Peer) + fmt.Sprintf("segment=%d repair=%v pin=%s id=%s key=%s eph=%s srp=%s restart=%v req=%d wrong=%v same=%v retry=%v newpin=%s", cell.Segment, cell.RePair, cell.Pin, cell.IDKind, cell.KeySeed, cell.EphSeed, cell.SRP, cell.Restart, cell.ReqSize, cell.WrongPin, cell.SameConn, cell.Retry, cell.NewPin)
+	name := fmt.Sprintf("before=%s peer=%s ", cell.Before, cell.Peer) + fmt.Sprintf("segment=%d repair=%v pin=%s id=%s key=%s eph=%s srp=%s restart=%v req=%d wrong=%v same=%v retry=%v newpin=%s reverify=%v", cell.Segment, cell.RePair, cell.Pin, cell.IDKind, cell.KeySeed, cell.EphSeed, cell.SRP, cell.Restart, cell.ReqSize, cell.WrongPin, cell.SameConn, cell.Retry, cell.NewPin, cell.ReVerify)
 	sigCell := fmt.Sprintf("id=%s,srp=%s,restart=%v,req=%d,wrong=%v,same=%v,retry=%v", cell.IDKind, cell.SRP, cell.Restart, cell.ReqSize, cell.WrongPin, cell.SameConn, cell.Retry)
 	if cell.Segment != 0 {
 		sigCell += fmt.Sprintf(",segment=%d", cell.Segment)
@@ -463,6 +464,23 @@ func c04Exec(c *fw.Ctx, cell c04Cell) {
 		fail("encrypted-get-characteristic", fmt.Sprintf("%v %v", m, err))
 		return
 	}
+	if cell.ReVerify {
+		// pair-verify once more on the connection that is already encrypted (a controller that refreshes its session):
+		// the exchange travels under the current keys, afterwards both directions use the new ones
+		if _, vec, err := refctl.PairVerify(vk, id, c04EphSeed(cell.EphSeed+"-again"), s.AccLTPK); err != nil || vec != 0 {
+			fail("second-pair-verify-on-the-connection", fmt.Sprintf("error code %d, %v", vec, err))
+			return
+		}
+		if m, _, err := vk.Do("GET", fmt.Sprintf("/characteristics?id=%d.%d", aid, iid), "", nil); err != nil || m.Status != 200 || !bytes.Contains(m.Body, []byte(`"value":42`)) {
+			fail("encrypted-get-after-second-pair-verify", fmt.Sprintf("after a second pair-verify on the same connection: %v %v", m, err))
+			return
+		}
+		if m, _, err := vk.Do("GET", "/accessories", "", nil); err != nil || m.Status != 200 {
+			fail("encrypted-get-after-second-pair-verify", fmt.Sprintf("after a second pair-verify on the same connection: %v %v", m, err))
+			return
+		}
+		c.Class("verified-twice-on-one-connection")
+	}
 	if cell.RePair {
 		// the same identifier pairs again with a new key pair (the user reset the controller). The accessory may refuse
 		// pair-setup while paired (the specification says so); but if it completes the exchange, the new key is the one
@@ -567,6 +585,8 @@ func c04Cells(thorough bool) []c04Cell {
 		add(func(x *c04Cell) { x.ReqSize = r })
 	}
 	add(func(x *c04Cell) { x.Restart = true })
+	add(func(x *c04Cell) { x.ReVerify = true })
+	add(func(x *c04Cell) { x.ReVerify = true; x.SameConn = true; x.ReqSize = 2049 })
 	add(func(x *c04Cell) { x.Restart = true; x.NewPin = "31415926" }) // restarted with another setup code
 	add(func(x *c04Cell) { x.Restart = true; x.NewPin = "00102004" }) // … which differs in the last digit
 	add(func(x *c04Cell) { x.SameConn = true })
@@ -639,7 +659,7 @@ func init() {
 	fw.Register(&fw.Check{
 		ID:    "C04",
 		Level: "exploration",
-		Rule:  "an independent controller (internal/refctl, no hc import) runs pair-setup, pair-verify and encrypted requests against the real transport for every cell of an explicit input-partition grid: 9 setup codes (default, extremes, adjacent to every trivial code) × controller identifiers {UUID, 1 byte, 63, 64 bytes, multi-byte UTF-8} × 3 Ed25519 identities × X25519 keys incl. one with the high bit set × request sizes {small, 1023, 1024, 1025, 2048, 2049, 4097 bytes} × {fresh, restarted} accessory × {same, new} connection, plus one cell per code-visible shortcut: SRP A and S with a leading zero byte (found by deterministic search), accessory B with a leading zero byte (crypto/rand.Reader steered to a stream found by deterministic search), wrong setup code (must give TLV error 2, store unchanged), a wrong-code attempt followed by the right code on the same connection. quick: one-factor-at-a-time around the base cell; thorough: cross product of the small dimensions. The controller verifies every proof/signature/key the accessory produces. distinct_nontrivial = distinct cells completed Added cells: identifiers of 96, 97 and 124 bytes (the longest with a legal entity file name); every pairing request body delivered in two TCP segments cut at 1, 2, 3, 40, 120, 258, 300 bytes and one byte before its end; a second pair-setup of the same identifier with a new key pair (if the accessory completes it, the new key verifies and the replaced one does not); after M6 the listed entities are exactly the accessory and the controller; bridges with 12, 24, 60 and 150 more accessories (encrypted answers of about 20, 40, 80 and 200 kB: the attribute database and a read of four characteristics of every accessory in one request); a restart on the same storage with another setup code, after which a second controller pairs with the new code.",
+		Rule:  "an independent controller (internal/refctl, no hc import) runs pair-setup, pair-verify and encrypted requests against the real transport for every cell of an explicit input-partition grid: 9 setup codes (default, extremes, adjacent to every trivial code) × controller identifiers {UUID, 1 byte, 63, 64 bytes, multi-byte UTF-8} × 3 Ed25519 identities × X25519 keys incl. one with the high bit set × request sizes {small, 1023, 1024, 1025, 2048, 2049, 4097 bytes} × {fresh, restarted} accessory × {same, new} connection, plus one cell per code-visible shortcut: SRP A and S with a leading zero byte (found by deterministic search), accessory B with a leading zero byte (crypto/rand.Reader steered to a stream found by deterministic search), wrong setup code (must give TLV error 2, store unchanged), a wrong-code attempt followed by the right code on the same connection. quick: one-factor-at-a-time around the base cell; thorough: cross product of the small dimensions. The controller verifies every proof/signature/key the accessory produces. distinct_nontrivial = distinct cells completed Added cells: identifiers of 96, 97 and 124 bytes (the longest with a legal entity file name); every pairing request body delivered in two TCP segments cut at 1, 2, 3, 40, 120, 258, 300 bytes and one byte before its end; a second pair-setup of the same identifier with a new key pair (if the accessory completes it, the new key verifies and the replaced one does not); after M6 the listed entities are exactly the accessory and the controller; bridges with 12, 24, 60 and 150 more accessories (encrypted answers of about 20, 40, 80 and 200 kB: the attribute database and a read of four characteristics of every accessory in one request); a restart on the same storage with another setup code, after which a second controller pairs with the new code; a second pair-verify on the connection that is already encrypted, followed by requests under the new keys.",
 		Run:   c04Run,
 		Replay: func(c *fw.Ctx, raw json.RawMessage) {
 			var cell c04Cell
